@@ -61,7 +61,13 @@ def gen_cases(tier, seed):
         ns = ref['slots'] + 1
         wake = [(['complete', idx, ['value', 'v%d' % idx]] if kind == 'fut' else ['child', idx, 'resume']) for idx, kind in items]
         cases = []
-        for perm in itertools.permutations(wake):
+        # every awaited item succeeds, or exactly one of them fails (the wake-up then is the failure: the workchain must not keep waiting)
+        wakes = [wake]
+        for j, (idx, kind) in enumerate(items):
+            failing = list(wake)
+            failing[j] = ['complete', idx, ['exc', 'e%d' % idx]] if kind == 'fut' else ['child', idx, 'fail']
+            wakes.append(failing)
+        for perm in itertools.chain.from_iterable(itertools.permutations(w) for w in wakes):
             for kpp in range(0, (3 if tier == 'quick' else 4)):
                 for pp in itertools.product(ALPHA_PP, repeat=kpp):
                     acts = list(perm) + [list(a) for a in pp]
@@ -75,7 +81,7 @@ def gen_cases(tier, seed):
                         # keep the relative order of the wake-ups as in perm
                         plan = [{'at': pos[j], 'act': acts[j]} for j in order]
                         cases.append({'kind': 'wc', 'name': name, 'program': prog, 'plan': plans.uniq(plan, 'w'), 'drain': True, 'listener': True})
-        cap = 2500 if tier == 'quick' else 40000
+        cap = 4000 if tier == 'quick' else 60000
         if len(cases) > cap:
             cases = rng.sample(cases, cap)
         for c in cases:
